@@ -12,6 +12,15 @@
 int
 main(int argc, String *argv)
 {
+	int	status;
+
 	osFixCmdLine(&argc, &argv);
-	return compCmd(argc, argv);
+	status = compCmd(argc, argv);
+
+	/*
+	 * compCmd returns the number of errors.  Only the low 8 bits of the
+	 * exit status survive, so 256 errors must not turn into success.
+	 */
+	if (status < 0 || status > 255) status = 255;
+	return status;
 }
